@@ -153,7 +153,8 @@ namespace nmtools::index
                 for (size_t i=0; i<len(axis); i++) {
                     auto axis_i  = at(axis,i);
                     auto shape_i = at(shape,axis_i);
-                    auto index   = nm_index_t(at(indices,axis_i)) - at(m_shift,i);
+                    // read the partial result: shifts of an axis listed more than once add up (as in numpy)
+                    auto index   = nm_index_t(at(result,axis_i)) - at(m_shift,i);
                     at(result,axis_i) = normalize_roll_index(index,shape_i);
                 }
             }
